@@ -52,6 +52,10 @@ def gen_configs(rng, n):
         dict(problem='test', lam=-2.0, levels=2, dt=0.1, maxiter=3, e_tol=None, procs=4, Tend=1.0, script=[(0, 1)]),
         dict(problem='vdp', lam=2.0, levels=2, dt=0.1, maxiter=4, e_tol=None, procs=2, Tend=0.5, script=[(0, 1), (1, 0), (2, 1)]),
         dict(problem='test', lam=-1.0, levels=1, dt=0.1, maxiter=3, e_tol=None, procs=1, Tend=0.5, script=[(1, 0), (2, 0), (3, 0)]),
+        # the LAST step / block of the run is restarted (post-run records must carry the final step's restart count)
+        dict(problem='test', lam=-1.0, levels=1, dt=0.1, maxiter=3, e_tol=None, procs=1, Tend=0.4, script=[(3, 0), (4, 0)]),
+        dict(problem='test', lam=-2.0, levels=1, dt=0.1, maxiter=3, e_tol=None, procs=2, Tend=0.4, script=[(1, 0)]),
+        dict(problem='test', lam=-1.0, levels=1, dt=0.1, maxiter=3, e_tol=None, procs=3, Tend=0.6, script=[(1, 1), (2, 0)]),
         # the user asks for a shipped SUBCLASS of a hook that the error estimator registers itself; LogRestarts / LogStepSize /
         # LogEmbeddedErrorEstimate are left to the convergence controllers (BasicRestarting, Adaptivity, EstimateEmbeddedError)
         dict(problem='vdp', lam=2.0, levels=1, dt=0.1, maxiter=3, e_tol=1e-4, procs=1, Tend=0.5, post_iter_hook=True, lean_hooks=True),
@@ -500,7 +504,7 @@ def run(ck):
 
     # ================================================================== 3. real runs
     import random
-    cfgs = gen_configs(random.Random('C14-runs:%d' % ck.seed), 60 if thorough else 16)
+    cfgs = gen_configs(random.Random('C14-runs:%d' % ck.seed), 60 if thorough else 18)
     agg = {}      # match-key -> (what, replay, match)
     run_infos = []
     coq_parts = []
@@ -527,7 +531,9 @@ def run(ck):
                 match = {'kind': f['kind'], 'cause': f['cause']}
                 if f['cause'] == 'stale_hook_counter':
                     match['hook'] = f['detail'].get('hook')
-            elif f['kind'] in ('key_num_restarts_stale', 'record_missing', 'hook_not_registered', 'hook_registered_twice'):
+            elif f['kind'] == 'post_run_record_extra':
+                match = {'kind': f['kind'], 'hook': f['detail'].get('hook'), 'cause': f['cause']}
+            elif f['kind'] in ('key_num_restarts_stale', 'record_missing', 'hook_not_registered', 'hook_registered_twice', 'post_run_key'):
                 match = {'kind': f['kind'], 'hook': f['detail'].get('hook')}
             elif f['kind'] in ('helper_mutates_stats', 'helper_raises'):
                 match = {'kind': f['kind'], 'helper': f['detail'].get('helper')}
